@@ -1631,6 +1631,32 @@ class AsType(Elemwise):
             meta = clear_known_categories(meta)
         return meta
 
+    def _filter_passthrough_available(self, parent, dependents):
+        # A filter that is pushed below astype evaluates its predicate on the
+        # unconverted frame: what it looks at may only be cast in a safe way
+        def safe(old, new):
+            return old == new or (
+                all(isinstance(d, np.dtype) and d.kind in "biuf" for d in (old, new))
+                and np.can_cast(old, new, "safe")
+            )
+
+        if parent.predicate._name == self._name:
+            return False
+        for e in parent.predicate.walk():
+            if any(dep._name == self._name for dep in e.dependencies()):
+                old, new = self.frame._meta, self._meta
+                if self.ndim == 2 and isinstance(e, Projection):
+                    columns = _convert_to_list(e.operand("columns"))
+                    old, new = old[columns], new[columns]
+                pairs = (
+                    zip(old.dtypes, new.dtypes)
+                    if self.ndim == 2
+                    else [(old.dtype, new.dtype)]
+                )
+                if not all(safe(o, n) for o, n in pairs):
+                    return False
+        return super()._filter_passthrough_available(parent, dependents)
+
     def _simplify_up(self, parent, dependents):
         if isinstance(parent, Filter) and self._filter_passthrough_available(
             parent, dependents
